@@ -111,8 +111,11 @@ func TestVerif_C06_Bookkeeping(t *testing.T) {
 				rejected[pub.Addr().String()] = true
 			}
 		}
+		// keepalives (consent checks on the selected pair, sent on every tick) on or off: the tick that enters Failed must
+		// not send one for the pair it has just released
+		keepalive := rapid.SampledFrom([]time.Duration{0, 2 * time.Second}).Draw(rt, "keepalive")
 		cfg := simAgentConfig{
-			controlling: controlling, maxBinding: 7, disconnected: 200 * time.Millisecond, failed: 300 * time.Millisecond, keepalive: 0, explicitTimeout: true,
+			controlling: controlling, maxBinding: 7, disconnected: 200 * time.Millisecond, failed: 300 * time.Millisecond, keepalive: keepalive, explicitTimeout: true,
 			disableActive: true,
 			remoteIPFilter: func(ip net.IP) bool {
 				a, _ := netip.AddrFromSlice(ip)
